@@ -910,4 +910,36 @@ def writeGen (env : Env) (c : GenFile) : ExtGenV2 :=
   { clean := c.clean, managed := writeManaged c.managed, plugins := c.plugins.map (writePlugin env),
     inputs := c.inputs.map writeInput }
 
+/-! ## What write + read does to a configuration, as coded
+
+  The writer always produces a v2 document, and that document cannot carry everything a
+  configuration may hold.  `normalise` is the exact effect of `read ∘ write` on a configuration
+  that a reader produced (theorem `gen_reread_eq_normalise`); every field not mentioned below is
+  preserved.
+    * a plugin's `types` / `exclude_types` are never written            -> both become empty
+    * a Local plugin has no name of its own in v2                       -> name := strings.Join(path, " ")
+    * a LocalOrProtocBuiltin plugin (v1beta1 / v1 `name: go` without path / protoc_path) is
+      resolved at WRITE time: if exec.LookPath finds protoc-gen-<name>, or <name> is not one of
+      protoc's builtin plugins                                          -> Local, name = path[0] = protoc-gen-<name>
+      otherwise                                                         -> ProtocBuiltin, same name
+    * the v1 top-level `types.include`                                  -> empty
+    * an input's `exclude_types` is never written                       -> empty -/
+
+def normPlugin (env : Env) (p : Plugin) : Plugin :=
+  match p.type with
+  | .remote => { p with includeTypes := [], excludeTypes := [] }
+  | .local_ => { p with name := joinSp p.path, includeTypes := [], excludeTypes := [] }
+  | .protocBuiltin => { p with includeTypes := [], excludeTypes := [] }
+  | .localOrProtocBuiltin =>
+    if env.lookPath (protocGen p.name) || !(p.name ∈ protocProxyPluginNames) then
+      { p with type := .local_, name := protocGen p.name, path := [protocGen p.name],
+               includeTypes := [], excludeTypes := [] }
+    else { p with type := .protocBuiltin, includeTypes := [], excludeTypes := [] }
+
+def normInput (i : Input) : Input := { i with excludeTypes := [] }
+
+def normalise (env : Env) (c : GenFile) : GenFile :=
+  { c with plugins := c.plugins.map (normPlugin env), typeInclude := [],
+           inputs := c.inputs.map normInput }
+
 end BufModel.ConfigGen
